@@ -1,6 +1,6 @@
 --------------------------------- MODULE TraceThreads ---------------------------------
 (* C08, real schedules: threads A, B (, C) each activate a probe on the shared function   *)
-(*    f(x): a = x + 1; b = a * 2; c: @W = b + 1; return b                                 *)
+(*    f(x): a = x + 1; b = a * 2; c: @W = b + 1; d: int; return b                         *)
 (* (A: 'f > a', B: 'f > b', C: 'f(a) > b'), call f(arg) and f(arg + 1), and deactivate,    *)
 (* interleaved by the baton scheduler at attribute / subscript load-store granularity.     *)
 (* ThreadsAbs: every thread observes exactly the events of its own two calls, each call    *)
@@ -16,7 +16,8 @@ Ev(t, x) == CASE t \in {"A", "D", "E"} -> {<<"a", x + 1>>}          \* D, E: two
 Got(th) == [i \in DOMAIN th.events |-> {<<th.events[i][j][1], th.events[i][j][2]>> : j \in DOMAIN th.events[i]}]
 Clauses(r) ==
   UNION { LET th == r.threads[t]  x == r.args[t]
-              want == <<Ev(t, x), Ev(t, x + 1)>>
+              \* S supplies the declared-only variable d of f (f(x): ...; d: int; return b) and subscribes to nothing
+              want == IF t = "S" THEN <<>> ELSE <<Ev(t, x), Ev(t, x + 1)>>
           IN (IF th.exc # "" THEN {<<"ThreadRaised", th.exc>>} ELSE {}) \cup
              (IF th.exc = "" /\ Got(th) # want
               THEN {<<IF Len(Got(th)) < 2 THEN "OwnEventLost" ELSE IF Len(Got(th)) > 2 THEN "ForeignOrDuplicateEvent" ELSE "WrongEvent", t>>} ELSE {}) \cup
